@@ -7,7 +7,6 @@ all 2^64 values (imported from `Lemmas/BB`). -/
 namespace Chess.C18
 open Chess
 
-deriving instance DecidableEq for Except
 
 /-! ## index and text round trips; out-of-range indices are errors -/
 theorem square_index_roundtrip : ∀ s : Sq, Sq.new? s.val = some s := by decide
